@@ -23,6 +23,13 @@ TNext == /\ l <= Len(Tr)
               \* frames the NCP sends on its own (incoming messages, stack status, delivery confirmations) between two feeds are no keep-alive
               \* outcome: the run of failures is neither cleared nor lengthened by them
               \/ e.a = "callback" /\ e.raised = 0 /\ UNCHANGED vars
+              \* a feed whose caller is cancelled while the keep-alive is outstanding: the cancellation propagates (it is neither swallowed nor
+              \* turned into a restart request) and the feed counts neither as a failure nor as a success
+              \/ /\ e.a = "cancelled" /\ e.exc = "CancelledError"
+                 /\ feeds' = IF ver = "v4" THEN feeds ELSE feeds + 1
+                 /\ cmd' = IF ver = "v4" THEN "nop" ELSE IF feeds' % Period = 0 THEN "readAndClearCounters" ELSE "readCounters"
+                 /\ (e.cmds # <<>> => e.cmds[1] = cmd')
+                 /\ UNCHANGED <<fails, ver, hist, raised>>
          /\ l' = l + 1 /\ UNCHANGED tid
 TSpec == TInit /\ [][TNext]_tvars
 Progress == TLCSet(1, [TLCGet(1) EXCEPT ![tid] = IF @ < l THEN l ELSE @])
